@@ -1124,6 +1124,9 @@ pub fn write_evidence(
     if let Ok(t) = std::env::var("JBKV_TSAN_RESULT") {
         coverage["thread_sanitizer_tier"] = serde_json::Value::String(t);
     }
+    if let Ok(t) = std::env::var("JBKV_FUZZ_RESULT") {
+        coverage["libfuzzer_supplement"] = serde_json::Value::String(t);
+    }
     let ev = serde_json::json!({
         "property_id": id,
         "tier": tier.name(),
